@@ -24,9 +24,14 @@ def _work(job):
             fname = "f"
         else:
             made = MAKERS[maker](rng, opts)
-            if isinstance(made, dict):          # a host history (C15)
+            if isinstance(made, dict) and "ops" in made:          # a host history (C15)
                 rec = proglib.eval_history(made["module"], made["nvms"], made["ops"], want=want)
                 rec.update(features=made["feat"], seed=seed, index=i, maker=maker, opts=opts)
+                return rec
+            if isinstance(made, dict):                             # a program with its own inputs
+                rec = proglib.eval_program(made["module"], made["fname"], made["inputs"], want=want)
+                rec.update(features=made["feat"], seed=seed, index=i, maker=maker, opts=opts)
+                if "name" in made: rec["name"] = made["name"]
                 return rec
             module, fname, feat = made
         inputs = gen.gen_inputs(rng, module, fname, ninputs)
